@@ -270,6 +270,13 @@ def state_reuse(fn, skip_guards=()):
             wset.setdefault(n.value.attr, []).append(n)
     if not wset:
         return []
+    # sub-objects updated through a method call with arguments (self.kinetic.generate(N + 1)): what they hold afterwards
+    # depends on those arguments.  They only feed the dependency closure; they are not part of the write set.
+    mutated = {}
+    for n in walk_local(fn):
+        if isinstance(n, ast.Call) and isinstance(n.func, ast.Attribute) and _self_attr(n.func.value, s) and (n.args or n.keywords) \
+                and isinstance(getattr(n, '_parent', None), ast.Expr):
+            mutated.setdefault(n.func.value.attr, []).append(n)
     # dependency closure: locals and written attributes -> parameters
     defs = {}
 
@@ -281,9 +288,16 @@ def state_reuse(fn, skip_guards=()):
         for x in ast.walk(e):
             if isinstance(x, ast.Name) and x.id != s:
                 out.add(x.id)
-            elif _self_attr(x, s) and x.attr in wset:
+            elif _self_attr(x, s) and (x.attr in wset or x.attr in mutated):
                 out.add('self.' + x.attr)
         return out
+
+    for attr, calls in mutated.items():
+        for c in calls:
+            used = set()
+            for a in list(c.args) + [k.value for k in c.keywords]:
+                used |= names_of(a)
+            add_def('self.' + attr, used - {'self.' + attr})
 
     for n in walk_local(fn):
         if isinstance(n, (ast.Assign, ast.AugAssign, ast.AnnAssign)) and getattr(n, 'value', None) is not None:
